@@ -161,6 +161,20 @@ impl Space for Sessions {
                                     f.bytes(n.as_bytes());
                                 }
                             }
+                            // the names through the other ways of consuming an iterator
+                            for how in 0..4 {
+                                if let Ok(Some(d)) = t.get_definition(i) {
+                                    let mut names = d.names;
+                                    let x = match how {
+                                        0 => names.last().and_then(|r| r.ok()).map(|s| s.len()),
+                                        1 => Some(names.count()),
+                                        2 => names.nth(1).and_then(|r| r.ok()).map(|s| s.len()),
+                                        _ => Some(names.size_hint().0),
+                                    };
+                                    f.u64(x.unwrap_or(99) as u64);
+                                    calls += 1;
+                                }
+                            }
                         }
                         if r == 0 {
                             first = f.get();
